@@ -43,9 +43,23 @@ impl<T> VecDeque<T> {
   pub(crate) fn is_empty(&self) -> bool { self.v.is_empty() }
   pub(crate) fn clear(&mut self) { self.v.clear(); }
   pub(crate) fn push_back(&mut self, x: T) { self.v.push(x); }
-  pub(crate) fn push_front(&mut self, x: T) { self.v.insert(0, x); }
-  pub(crate) fn remove(&mut self, i: usize) -> Option<T> { if i < self.v.len() { Some(self.v.remove(i)) } else { None } }
-  pub(crate) fn retain<F: FnMut(&T) -> bool>(&mut self, f: F) { self.v.retain(f); }
+  pub(crate) fn push_front(&mut self, x: T) {
+    // no memmove (Vec::insert / Vec::remove copy overlapping ranges, which CBMC handles badly): push, then rotate by swaps
+    self.v.push(x);
+    let mut i = self.v.len() - 1;
+    while i > 0 { self.v.swap(i, i - 1); i -= 1; }
+  }
+  pub(crate) fn remove(&mut self, i: usize) -> Option<T> {
+    let n = self.v.len();
+    if i >= n { return None; }
+    let mut j = i;
+    while j + 1 < n { self.v.swap(j, j + 1); j += 1; }
+    self.v.pop()
+  }
+  pub(crate) fn retain<F: FnMut(&T) -> bool>(&mut self, mut f: F) {
+    let mut i = 0;
+    while i < self.v.len() { if f(&self.v[i]) { i += 1; } else { let _ = self.remove(i); } }
+  }
   pub(crate) fn iter(&self) -> std::slice::Iter<'_, T> { self.v.iter() }
 }
 impl<T> std::ops::Index<usize> for VecDeque<T> { type Output = T; fn index(&self, i: usize) -> &T { &self.v[i] } }
